@@ -68,6 +68,12 @@ def build_args(it, c, fn, cls, case=None):
             elif isinstance(sh, tuple) and sh and sh[0] == "builtin":
                 from . import lib
                 vals[nm] = lib.builtin(it, sh[1])
+            elif isinstance(sh, tuple) and sh and sh[0] == "const_class":
+                # the class itself (the `cls` of a classmethod): 'relpath:ClassName'
+                from .extract import ModuleInfo as _MI
+                from .values import VClass as _VC
+                rp, cn = sh[1].split(":")
+                vals[nm] = _VC(_MI.get(rp).classes[cn])
             else:
                 vals[nm] = it.fresh(sh, "arg." + nm)
         elif defaults[i] is not None:
@@ -522,6 +528,28 @@ def refine_model(ob, s, rounds=8, timeout_s=5.0):
     apps = _collect_apps(list(ob.pc) + [ob.goal], set(nat))
     if not apps:
         return "sat", s.model()
+    # general true facts first (they let the solver pick easy points): ASCII text without upper-case letters is its
+    # own lower(), without lower-case letters its own upper()
+    asc = z3.Range(chr(0), chr(127))
+    no_up = z3.Star(z3.Intersect(asc, z3.Complement(z3.Range("A", "Z")))) if hasattr(z3, "Intersect") else None
+    no_lo = z3.Star(z3.Intersect(asc, z3.Complement(z3.Range("a", "z")))) if hasattr(z3, "Intersect") else None
+    pre = []
+    for app in apps:
+        nm = app.decl().name()
+        if nm == "py_lower" and no_up is not None:
+            pre.append(z3.Implies(z3.InRe(app.arg(0), no_up), app == app.arg(0)))
+        elif nm == "py_upper" and no_lo is not None:
+            pre.append(z3.Implies(z3.InRe(app.arg(0), no_lo), app == app.arg(0)))
+    if pre:
+        m0 = s.model()
+        if not all(z3.is_true(m0.eval(f, model_completion=True)) for f in pre):
+            for f in pre:
+                s.add(f)
+            r = timed_check(s, timeout_s)
+            if r == z3.unsat:
+                return "unsat", None
+            if r != z3.sat:
+                return "unknown", None
     for _ in range(rounds):
         m = s.model()
         facts = []
